@@ -24,4 +24,14 @@ theorem xy_bridge (x y refLat refLon : ℝ) :
       = xyToLatlon RC x y refLat refLon := by
   simp only [Generated.xy2lat, Generated.xy2lon, xyToLatlon, deg2rad, rad2deg, earthRadius]
 
+
+/-- source-area base functions -/
+theorem base_bridge (x y xm ym u v : ℝ) :
+    Generated.baseCircular RC x y xm ym = baseCircular x y xm ym ∧
+    Generated.baseUpwind RC x y xm ym u v = baseUpwind RC x y xm ym u v ∧
+    Generated.baseCrosswind RC x y xm ym u v = baseCrosswind RC x y xm ym u v ∧
+    Generated.baseSector RC x y xm ym u v = baseSector RC x y xm ym u v := by
+  refine ⟨rfl, rfl, rfl, ?_⟩
+  simp only [Generated.baseSector, baseSector]
+
 end BLDFM.Bridge
